@@ -11,11 +11,11 @@ CHECKS = {
   "Static, partial. Decides for ALL inputs the structural clauses: every successful lookup result is serialize(estimate) with "
   "estimate.resolution == the resolution argument (world cell only for -1); the early return is dominated by containment(estimate, query point) > 0 "
   "for the very estimate returned; the fallback is the arg-max of the recorded (estimate, containment) pairs; one curve depth r-FIRST+1 in ij_to_s, "
-  "lattice scale, s_to_anchor and get_pentagon_vertices; containment is the exact sign of the edge cross product (threshold literally 0); probe estimates are de-duplicated by their serialized ID only (R6); shared: every longitude wrap moves by a full period (C19.A5); the inverse-projection pairing rules C15.S1/S3/S4 and the sector-reduced reflection azimuth C15.S6; no explicitly constructed error result of lonlat_to_cell / lonlat_to_estimate is reachable for latitude in [-90,90], finite longitude, resolution 0..29 (R7, interval analysis over exactly that domain); every spiral index contributes its probe to the list and every probe is estimated - no probe is filtered by its coordinates (R8). Does NOT decide that the probe search reaches the containing cell, the edge band, "
+  "lattice scale, s_to_anchor and get_pentagon_vertices; containment is the exact sign of the edge cross product (threshold literally 0); probe estimates are de-duplicated by their serialized ID only (R6); shared: the containment test works on the polygon get_pentagon reports, at every resolution (C02.R2); every longitude wrap moves by a full period (C19.A5); the inverse-projection pairing rules C15.S1/S3/S4 and the sector-reduced reflection azimuth C15.S6; no explicitly constructed error result of lonlat_to_cell / lonlat_to_estimate is reachable for latitude in [-90,90], finite longitude, resolution 0..29 (R7, interval analysis over exactly that domain); every spiral index contributes its probe to the list and every probe is estimated - no probe is filtered by its coordinates (R8). Does NOT decide that the probe search reaches the containing cell, the edge band, "
   "periodicity or poles (numerical over a continuum)."),
  "C02": ("6/C02", "custom MIR dataflow rules (provenance, sibling dispatch comparison)",
   "Static, thin partial. Decides: centre = inverse projection on the cell's own face of the centroid of get_pentagon(decode(cell)); get_pentagon and the "
-  "containment test build geometry with the same constructors, thresholds and quintant; shared: C01.R1-R5/R7/R8 (the lookup returns a cell of the asked resolution accepted by the exact containment test at the query point itself, and rejects no admissible point), C15.S1/S3/S4/S6 inverse-projection pairing. Does NOT decide the centre/interior round trip (numerical)."),
+  "containment test build geometry with the same constructors, thresholds and quintant at every resolution 0..29 (R2, evaluated level by level, not sampled); shared: C01.R1-R5/R7/R8 (the lookup returns a cell of the asked resolution accepted by the exact containment test at the query point itself, and rejects no admissible point), C15.S1/S3/S4/S6 inverse-projection pairing. Does NOT decide the centre/interior round trip (numerical)."),
  "C04": ("6/C04", "custom MIR dataflow rule + table predicate on compiler-evaluated constants",
   "Static, thin partial. Decides: boundary points are subdivided in the plane before unprojection (provenance of every inverse-projection argument) and the "
   "31 tabulated areas equal authalic area / cell count to 1e-12; shared: C15.S1/S3/S4/S6 (matching spherical/squashed triangle, angle helper continuous at its threshold, reflection test on the sector-reduced azimuth). Does NOT decide that cells have equal area (needs C16, numerical)."),
@@ -38,7 +38,7 @@ CHECKS = {
   "Static, partial. Decides: output is append-only inside one forward loop over the input; iteration i expands cells[i] to Some(target) and uses the resolution recorded for index i; the "
   "finer-than-target test runs for every element before the output exists; the fan-out table agrees with the hierarchy over all 746 (resolution, target) pairs; the target is refused up front exactly outside -1..=29 (U5, finite evaluation of the target-only guards); loops are read through the k-th item of the sequence they walk (for / while / enumerate / zip / aligned local vectors alike); shared: C07.T2/T3 (children fan-out and bit placement). Does NOT decide the descendant arithmetic."),
  "C11": ("6/C11", "custom MIR dataflow rules (guarded push, provenance, length-preserving stages)",
-  "Static, thin partial. Decides: ring closure under closed_ring with element 0 of the same normalised vector; requested subdivision honoured; one push per element in each stage; the unwrap reference is a longitude on every path; every +-180 comparison tests the longitude of the point being mapped, as its signed distance from the reference - point and reference enter with opposite signs (B5); no function outside the vetted ones reads the padded 5-slot vertex array (B6 census); split_edges pushes each vertex followed by exactly segments-1 interior points counted in integers (B7: one vertex loop, one integer-counted inner loop, one push each); shared: full-period wraps (C19.A5); C04.R1 (ring built from the length-exact split pentagon). "
+  "Static, thin partial. Decides: ring closure under closed_ring with element 0 of the same normalised vector; requested subdivision honoured; one push per element in each stage; the unwrap reference is a longitude on every path; every +-180 comparison tests the longitude of the point being mapped, as its signed distance from the reference - point and reference enter with opposite signs (B5); the unwrap reference accumulates the ring points with a + in its horizontal components (B8); no function outside the vetted ones reads the padded 5-slot vertex array (B6 census); split_edges pushes each vertex followed by exactly segments-1 interior points counted in integers (B7: one vertex loop, one integer-counted inner loop, one push each); shared: full-period wraps (C19.A5); C04.R1 (ring built from the length-exact split pentagon). "
   "Does NOT decide finiteness, latitude range, orientation, longitude window (numerical)."),
  "C13": ("6/C13", "global-state census, effect analysis over the resolved call graph, memo-table soundness with key enumeration from the range analysis",
   "Static, all clauses (proof-style: every obligation enumerated and discharged mechanically). For EVERY call history and thread interleaving: statics are immutable, once-cells or "
